@@ -615,6 +615,13 @@ class FnTrans:
             fo = {'fadd': '+', 'fsub': '-', 'fmul': '*', 'fdiv': '/'}
             if o in fo: return '(%s %s %s)' % (a, fo[o], b)
             if o == 'frem': return 'fmod(%s,%s)' % (a, b)
+        lit = lambda x: re.fullmatch(r'\(\(u\d+\)\d+ULL\)', x) is not None
+        if t.k == 'int' and t.bits == 32 and not lit(a) and not lit(b):
+            # symbolic x symbolic 32-bit arithmetic goes through macros that a harness may turn into
+            # uninterpreted functions (-DIR_UF_ARITH): multiplier/divider equivalence is not a SAT-friendly problem
+            if o == 'mul': return 'IR_MUL32(%s, %s)' % (a, b)
+            if o == 'sdiv': return self.mask('((%s)IR_SDIV32(%s, %s))' % (ct, self.sext_expr(a, t), self.sext_expr(b, t)), t)
+            if o == 'srem': return self.mask('((%s)IR_SREM32(%s, %s))' % (ct, self.sext_expr(a, t), self.sext_expr(b, t)), t)
         if o in BINOPS: return self.mask('((%s)(%s %s %s))' % (ct, a, BINOPS[o], b), t)
         if o == 'shl': return self.mask('((%s)(%s << %s))' % (ct, a, b), t)
         if o == 'lshr': return '((%s)(%s >> %s))' % (ct, a, b)
@@ -1372,6 +1379,26 @@ static u8* IR_ALLOC(u64 n) { u8* p = (u8*)malloc(n ? n : 1); if (!p) abort(); re
 #endif
 #define IR_SDIV(a,b) ((a)/(b))
 #define IR_SREM(a,b) ((a)%(b))
+#if defined(__CPROVER__) && defined(IR_UF_ARITH)
+/* uninterpreted 32-bit * / %: the fault conditions stay explicit assertions, the value is an uninterpreted function
+   of the operand *magnitudes* with the sign put back (identities of two's-complement multiplication and of C's truncating
+   division), commutative for *, exact for operands 0 and 1.  The harness' reference uses the same functions: equality of
+   the two sides then follows by congruence, and a compiler's operand order or sign rewriting does not matter. */
+u32 __CPROVER_uninterpreted_mul32(u32, u32); u32 __CPROVER_uninterpreted_udiv32(u32, u32); u32 __CPROVER_uninterpreted_urem32(u32, u32);
+static inline u32 ir_mag32(u32 a) { return ((int32_t)a < 0) ? 0u - a : a; }
+static inline u32 IR_MUL32(u32 a, u32 b) {
+  if (a == 0 || b == 0) return 0;
+  u32 x = ir_mag32(a), y = ir_mag32(b); u32 m = x == 1 ? y : y == 1 ? x : x < y ? __CPROVER_uninterpreted_mul32(x, y) : __CPROVER_uninterpreted_mul32(y, x);
+  return (((int32_t)a < 0) != ((int32_t)b < 0)) ? 0u - m : m; }
+static inline int32_t ir_uf_sdiv32(int32_t a, int32_t b) { u32 q = b == 1 || b == -1 ? ir_mag32((u32)a) : __CPROVER_uninterpreted_udiv32(ir_mag32((u32)a), ir_mag32((u32)b)); return (int32_t)(((a < 0) != (b < 0)) ? 0u - q : q); }
+static inline int32_t ir_uf_srem32(int32_t a, int32_t b) { u32 r = b == 1 || b == -1 ? 0u : __CPROVER_uninterpreted_urem32(ir_mag32((u32)a), ir_mag32((u32)b)); return (int32_t)((a < 0) ? 0u - r : r); }
+static inline int32_t IR_SDIV32(int32_t a, int32_t b) { __CPROVER_assert(b != 0, "division by zero"); __CPROVER_assert(!(a == (-2147483647 - 1) && b == -1), "arithmetic overflow on signed division"); return ir_uf_sdiv32(a, b); }
+static inline int32_t IR_SREM32(int32_t a, int32_t b) { __CPROVER_assert(b != 0, "division by zero"); __CPROVER_assert(!(a == (-2147483647 - 1) && b == -1), "arithmetic overflow on signed division"); return ir_uf_srem32(a, b); }
+#else
+#define IR_MUL32(a,b) ((u32)((a)*(b)))
+#define IR_SDIV32(a,b) ((a)/(b))
+#define IR_SREM32(a,b) ((a)%(b))
+#endif
 #define IR_CATCHALL_ID 1
 static inline u64 IR_CTPOP(u64 x, int bits) { u64 n = 0; for (int i = 0; i < bits; i++) n += (x >> i) & 1; return n; }
 static inline u64 IR_CTTZ(u64 x, int bits) { u64 n = 0; while (n < (u64)bits && !((x >> n) & 1)) n++; return n; }
